@@ -21,6 +21,9 @@ CLAIMS = {
  'C08': dict(engine='netmc', ref='DESIGN.md §2, §5 C08',
    text='Configured credentials x request kinds (GET, POST with body, CONNECT, credentials before Host) x a Proxy-Authorization grammar (10 token mutations x 8 schemes x 4 separators x 4 header-name casings, duplicated lines, look-alike headers) x packings (whole, cut inside the header, per byte) x {no plugin, recording plugin loaded after auth} x second request with/without credentials are executed on the real executor. An independent predicate decides accept/reject (ambiguous spellings may go either way); rejected: h11-valid 407 then end-of-stream, empty connect/DNS log, no origin byte, no request hook of the later plugin; accepted: served and no origin ever receives a Proxy-Authorization line on the first or second request.',
    note=NETMC_NOTE + ' d=0 (input and configuration enumeration).', technique='exhaustive small-scope enumeration of inputs and configurations executed on the real event loop, reference predicate + h11 as oracle'),
+ 'C09': dict(engine='netmc', ref='DESIGN.md §2, §5 C09',
+   text='Plugin programs: every list of 1..n recording plugins (n=2 quick, n=3 thorough) loaded through the real flag parser, each plugin carrying one of 12 (hook, behaviour) options over before_upstream_connection / handle_client_request / handle_upstream_chunk / on_access_log / resolve_dns x pass / modify / drop / reject, in every order, with authentication off and on (good and bad credentials), under 8 endings (normal with a follow-up request, client abort before/after the request or response, upstream close on accept / after the response, connect refusal, DNS failure). A reference interpreter of the documented chain predicts per-hook call order and short-circuit, request threading, the connect target, the forwarded request, the rejection response and the client byte stream; access-log chain and connection-close hook must have run exactly once whenever the first request was completely received.',
+   note=NETMC_NOTE + ' d=0 (program and history enumeration). A rejection raised in handle_client_request happens after the upstream connection was opened; the oracle requires no request bytes at the origin there, and no connection attempt only for before_upstream_connection rejections.', technique='exhaustive enumeration of plugin programs and connection endings on the real event loop against a reference interpreter'),
  'C10': dict(engine='netmc', ref='DESIGN.md §2, §5 C10', category='model_checking',
    text='For every history of the C05 corpus (all roles, every abort kind, connect failures, protocol errors) once and three times in a row, for idle-timeout histories under the virtual clock, and for every single injected I/O error / postponed peer action on top, the state at quiescence (executor still running, after gc.collect()) is inspected: /proc/self/fd minus harness descriptors equals the snapshot before the first connection, and works / registered events / unfinished tasks / selector map are back to empty.',
    note=NETMC_NOTE + ' A socket closed only by the cyclic GC counts as released.', technique='stateless model checking of the implementation with fault enumeration and a kernel-object census at quiescence'),
